@@ -9,15 +9,19 @@ pub mod c03;
 pub mod c04;
 pub mod c05;
 pub mod c06;
+pub mod c07;
 pub mod c08;
 pub mod c09;
 pub mod paths;
+pub mod c11;
 pub mod c12;
 pub mod c13;
+pub mod c14;
 pub mod c15;
 pub mod c16;
 pub mod c19;
 pub mod c10;
+pub mod c17;
 pub mod c18;
 pub mod c20;
 
@@ -29,14 +33,18 @@ pub fn registry() -> Vec<(&'static str, fn(&mut Ctx))> {
         ("C04", c04::run),
         ("C05", c05::run),
         ("C06", c06::run),
+        ("C07", c07::run),
         ("C08", c08::run),
         ("C09", c09::run),
         ("C10", c10::run),
+        ("C11", c11::run),
         ("C12", c12::run),
         ("C13", c13::run),
         ("C19", c19::run),
+        ("C14", c14::run),
         ("C15", c15::run),
         ("C16", c16::run),
+        ("C17", c17::run),
         ("C18", c18::run),
         ("C20", c20::run),
     ]
